@@ -16,12 +16,14 @@ __CPROVER_requires(__CPROVER_is_fresh(WV_BG, sizeof(buffergroup)) && __CPROVER_i
 __CPROVER_requires(WV_BG->size == this->THREADS_NUM && WV_BG->turn == 0 && !WV_BG->over && WV_BG_EMPTY(WV_BG) && bufferctrl__live_num == this->THREADS_NUM)
 __CPROVER_requires(WV_FILE_OPEN(WV_BG->fin) && WV_BG->fout->open && WV_BG->fout->pos == WV_BG->fout->len && WV_BG->fout->len < (1ull << 50) && wv_wcount < (1ull << 59))
 __CPROVER_requires(__CPROVER_is_fresh(mode, sizeof(Aesmode *) * WV_TSZ(this->THREADS_NUM)) && WV_IOI(WV_BG) && !buffergroup__mtx.held && !WV_BG->fin->eof &&
-                   WV_BG->fin->pos < (1ull << 50) && WV_BG->fin->len < (1ull << 50) && WV_BG->fout->nbytes < (1ull << 59) && wv_pg < 16 && wv_gk < 16)
+                   WV_BG->fin->pos < (1ull << 50) && WV_BG->fin->len < (1ull << 50) && WV_BG->fout->nbytes < (1ull << 59) && wv_pg < 16 && wv_gk < 16 &&
+                   (wv_gk < this->THREADS_NUM ==> !this->threads[wv_gk].started))   /* a fresh multicry_master: no thread object is running */
 __CPROVER_assigns(WV_BG->turn, WV_BG->over, __CPROVER_object_whole(WV_BG->buflst), __CPROVER_object_whole(WV_BG->ctrl), bufferctrl__live_num,
-                  WV_BG->fin->pos, WV_BG->fin->eof, WV_FILE_WSTATE(WV_BG->fout), WV_ARR(this->threads), wv_c, wv_b, wv_steps, wv_pl.notified_ready, wv_pl.notified_update)
-/* [C14] worker i is started on buffer i with stream object i, [C04] and every worker started is joined before the run returns */
-__CPROVER_ensures(wv_gk < this->THREADS_NUM ==> (this->threads[wv_gk].started && this->threads[wv_gk].joined && this->threads[wv_gk].arg == wv_gk &&
-                                                this->threads[wv_gk].obj == (void *)mode[wv_gk]))
+                  WV_BG->fin->pos, WV_BG->fin->eof, WV_FILE_WSTATE(WV_BG->fout), WV_ARR(this->threads), wv_c, wv_b, wv_steps, wv_pl.notified_ready, wv_pl.notified_update, wv_worker_mask)
+/* [C14] a worker started in slot i works on buffer i with stream object i, [C04] and every worker started is joined before the run
+   returns.  (That every buffer which receives a chunk has a worker is the liveness side of C04 and not stated here.) */
+__CPROVER_ensures((wv_gk < this->THREADS_NUM && this->threads[wv_gk].started) ==> (this->threads[wv_gk].joined && this->threads[wv_gk].arg == wv_gk &&
+                                                                                    this->threads[wv_gk].obj == (void *)mode[wv_gk]))
 /* everything is consumed, every buffer is retired */
 __CPROVER_ensures(bufferctrl__live_num == 0 && WV_BG->fin->pos >= WV_BG->fin->len)
 /* encryption appends exactly 16*(floor(n/16)+1) bytes, each output offset written exactly once */
@@ -279,6 +281,8 @@ void wv_rely_workers(buffergroup *g)
 void buffergroup__run_buffer(buffergroup *this)
 __CPROVER_requires(__CPROVER_rw_ok(this, sizeof(*this)) && this->size >= 1 && this->size <= 16 && WV_T_IS(this->size) && this->turn == 0 && !this->over)
 __CPROVER_requires(__CPROVER_rw_ok(this->ctrl, sizeof(bufferctrl) * WV_TSZ(this->size)) && __CPROVER_rw_ok(this->buflst, sizeof(iobuffer) * WV_TSZ(this->size)) && WV_BG_EMPTY(this) && WV_IOI(this))
+/* [C04 lemma 8] every buffer has a worker thread: a buffer published READY without one would never be handed back */
+__CPROVER_requires(WV_ALL_WORKERS(this->size))
 __CPROVER_requires(bufferctrl__live_num == this->size && WV_FILE_VALID(this->fin) && !this->fin->eof && __CPROVER_rw_ok(this->fout, sizeof(wv_FILE)) && this->fout->open &&
                    this->fout->pos == this->fout->len && this->fout->len < (1ull << 50) && this->fin->len < (1ull << 50) && this->fin->pos < (1ull << 50) && this->fout->nbytes < (1ull << 59) && wv_wcount < (1ull << 59) && wv_pg < 16)
 __CPROVER_assigns(WV_IO_LOOP_FRAME(this))
